@@ -152,10 +152,13 @@ strcasepbrk(const char *haystack, register const char *needle)
 char *
 strrev(register char *str)
 {
-    register int i, j;
+    register size_t i, j;
 
     REQUIRE_RVAL(str != (spif_ptr_t) NULL, (spif_ptr_t) NULL);
     i = strlen(str);
+    if (i == 0) {
+        return (str);
+    }
     for (j = 0, i--; i > j; i--, j++) {
         (void) SWAP(str[j], str[i]);
     }
